@@ -45,7 +45,7 @@ fn gen(r: &mut Rng, _cfg: &RunCfg) -> Case {
         let text = gen_text(r, TextDomain::Any);
         let mut o = gen_opts(r, DOM, &text, true);
         o.algo = Algo::FirstFit;
-        wrap_case("text", text, o)
+        wrap_case(if r.chance(1, 4) { "text_fill" } else { "text" }, text, o)
     }
 }
 
@@ -189,8 +189,16 @@ fn check_text(case: &Case, obs: &mut Obs) -> Verdict {
     if o.algo != Algo::FirstFit {
         return Verdict::Skipped("not first-fit");
     }
-    let lines = textwrap::wrap(text, o.build());
+    let lines: Vec<std::borrow::Cow<str>> = if case.sub == "text_fill" {
+        // the same claim for fill's lines (fill has its own fast path)
+        textwrap::fill(text, o.build()).split(o.le()).map(|l| std::borrow::Cow::Owned(l.to_string())).collect()
+    } else {
+        textwrap::wrap(text, o.build())
+    };
     obs.calls += 1;
+    if case.sub == "text_fill" {
+        obs.bump("text_fill_lines");
+    }
     if obs.want_sample {
         obs.out = Some(lines_json(&lines));
     }
@@ -402,7 +410,7 @@ pub fn prop() -> Prop {
         panic_is_violation: false,
         budget: (2400000, 72000000),
         extra: Some(extra),
-        required: &["long_sequences", "long_paragraphs", "algo_wrap_more_than_8_widths", "frag_multi_line", "frag_several_line_widths", "frag_with_penalties", "text_multi_line", "text_different_indent_widths", "text_multi_paragraph"],
+        required: &["text_fill_lines", "long_sequences", "long_paragraphs", "algo_wrap_more_than_8_widths", "frag_multi_line", "frag_several_line_widths", "frag_with_penalties", "text_multi_line", "text_different_indent_widths", "text_multi_paragraph"],
         known: None,
     }
 }
